@@ -54,12 +54,71 @@ pub struct Profile {
     pub pp_faults: bool,
     pub vary_cfg: bool,
     pub modules: usize,
+    /// probability (x/16) that a CA is published through RRDP as well (0 = rsync only; the decoding of
+    /// everything else is unchanged then)
+    pub rrdp_16: usize,
+    /// number of RRDP repositories the RRDP CAs are spread over
+    pub rrdp_repos: usize,
 }
 
 impl Default for Profile {
     fn default() -> Self {
-        Profile { max_cas: 7, max_tals: 2, max_objs: 5, versions: 1, fault_16: 3, obj_faults: true, cert_faults: true, pp_faults: true, vary_cfg: true, modules: 3 }
+        Profile { max_cas: 7, max_tals: 2, max_objs: 5, versions: 1, fault_16: 3, obj_faults: true, cert_faults: true, pp_faults: true, vary_cfg: true, modules: 3, rrdp_16: 0, rrdp_repos: 2 }
     }
+}
+
+/// Assigns RRDP repositories to CAs and picks the fallback policy. Reads from a cursor over its own
+/// genome so that the rest of the scenario is decoded exactly as without RRDP.
+pub fn decode_rrdp(d: &mut D, p: &Profile, cfg: &mut Cfg, cas: &mut [Ca]) {
+    if p.rrdp_16 == 0 {
+        return;
+    }
+    cfg.rrdp_fallback = d.pick(&[1u8, 0, 2]);
+    for ca in cas.iter_mut() {
+        let yes = d.chance(p.rrdp_16, 16);
+        let r = d.below(p.rrdp_repos.max(1));
+        if yes && !ca.sia_under_parent_mft {
+            ca.rrdp = Some(r);
+        }
+    }
+}
+
+/// `single_run` plus RRDP decisions decoded from the second genome; each RRDP repository fails with
+/// chance `fail_rrdp_16`/16 and each rsync module (the fallback target) with 2/16.
+pub fn single_run_rrdp(words: &[u16], rwords: &[u16], p: &Profile, fail_rrdp_16: usize) -> Scenario {
+    let mut sc = single_run(words, p);
+    let mut d = D::new(rwords);
+    decode_rrdp(&mut d, p, &mut sc.cfg, &mut sc.cas);
+    if p.rrdp_16 > 0 {
+        for step in sc.steps.iter_mut() {
+            step.fail_rrdp = (0..p.rrdp_repos.max(1)).filter(|_| d.chance(fail_rrdp_16, 16)).collect();
+            step.fail_modules = (0..p.modules).filter(|_| d.chance(2, 16)).collect();
+        }
+    }
+    sc
+}
+
+/// `history_run` plus RRDP decisions (repositories per CA, fallback policy, failing repositories per
+/// step) decoded from the second genome.
+pub fn history_run_rrdp(words: &[u16], rwords: &[u16], hp: &HistProfile) -> Scenario {
+    let mut sc = history_run(words, hp);
+    let mut d = D::new(rwords);
+    decode_rrdp(&mut d, &hp.base, &mut sc.cfg, &mut sc.cas);
+    if hp.base.rrdp_16 > 0 {
+        for step in sc.steps.iter_mut() {
+            step.fail_rrdp = (0..hp.base.rrdp_repos.max(1)).filter(|_| d.chance(hp.fail_rrdp_16, 16)).collect();
+        }
+    }
+    sc
+}
+
+/// Genome for the RRDP decisions of one scenario.
+pub fn rrdp_genome() -> impl Strategy<Value = Vec<u16>> {
+    genome(40)
+}
+
+pub fn count_rrdp_cas(sc: &Scenario) -> usize {
+    sc.cas.iter().filter(|c| c.rrdp.is_some()).count()
 }
 
 pub const OBJ_FAULTS: [ObjFault; 7] = [ObjFault::BadSig, ObjFault::Garbage, ObjFault::Expired, ObjFault::NotYetValid, ObjFault::Revoked, ObjFault::WrongCrlUri, ObjFault::Overclaim];
@@ -160,7 +219,7 @@ pub fn decode_forest(d: &mut D, p: &Profile) -> Vec<Ca> {
         let module = d.below(p.modules);
         let not_after = d.pick(&[86400i64 * 365, 86400 * 3, 3600 * 6]);
         let versions = (0..p.versions).map(|v| decode_version(d, p, v)).collect();
-        cas.push(Ca { parent, key: i, module, not_after, cert_fault, versions, extra_res: None, ta_alt: vec![], sia_under_parent_mft: false });
+        cas.push(Ca { parent, key: i, module, not_after, cert_fault, versions, extra_res: None, ta_alt: vec![], sia_under_parent_mft: false, rrdp: None });
     }
     // LoopKey(2) needs a grandparent; degrade to LoopKey(1) otherwise
     for i in 0..cas.len() {
@@ -182,7 +241,7 @@ pub fn single_run(words: &[u16], p: &Profile) -> Scenario {
     let mut d = D::new(words);
     let cfg = decode_cfg(&mut d, p.vary_cfg);
     let cas = decode_forest(&mut d, p);
-    let steps = vec![Step { publish: vec![0; cas.len()], fail_modules: vec![], offline: false, stale: None, foreign_tal_key: vec![], ta_serve: vec![] }];
+    let steps = vec![Step { publish: vec![0; cas.len()], fail_modules: vec![], offline: false, stale: None, foreign_tal_key: vec![], ta_serve: vec![], fail_rrdp: vec![] }];
     Scenario { cfg, cas, steps }
 }
 
@@ -225,18 +284,21 @@ pub struct HistProfile {
     pub offline_16: usize,
     /// x/16 chance that a version gets an incomplete-fetch fault (FileMissing / HashMismatch)
     pub incomplete_16: usize,
+    /// x/16 chance that an RRDP repository's notification fails (HTTP 500) in a step
+    pub fail_rrdp_16: usize,
 }
 
 impl Default for HistProfile {
     fn default() -> Self {
         HistProfile {
-            base: Profile { max_cas: 5, max_tals: 2, max_objs: 5, versions: 3, fault_16: 2, obj_faults: true, cert_faults: false, pp_faults: true, vary_cfg: true, modules: 2 },
+            base: Profile { max_cas: 5, max_tals: 2, max_objs: 5, versions: 3, fault_16: 2, obj_faults: true, cert_faults: false, pp_faults: true, vary_cfg: true, modules: 2, rrdp_16: 0, rrdp_repos: 2 },
             max_steps: 4,
             rollback_16: 3,
             irregular_16: 0,
             fail_module_16: 2,
             offline_16: 1,
             incomplete_16: 3,
+            fail_rrdp_16: 0,
         }
     }
 }
@@ -282,7 +344,7 @@ pub fn history_run(words: &[u16], hp: &HistProfile) -> Scenario {
             .collect();
         let fail_modules = (0..p.modules).filter(|_| d.chance(hp.fail_module_16, 16)).collect();
         let offline = s > 0 && d.chance(hp.offline_16, 16);
-        steps.push(Step { publish, fail_modules, offline, stale: None, foreign_tal_key: vec![], ta_serve: vec![] });
+        steps.push(Step { publish, fail_modules, offline, stale: None, foreign_tal_key: vec![], ta_serve: vec![], fail_rrdp: vec![] });
     }
     Scenario { cfg, cas, steps }
 }
@@ -294,6 +356,9 @@ pub fn history_classes(sc: &Scenario) -> Vec<String> {
     }
     if sc.steps.iter().any(|s| !s.fail_modules.is_empty()) {
         res.push("module_failure".to_string());
+    }
+    if sc.steps.iter().any(|s| !s.fail_rrdp.is_empty()) {
+        res.push("rrdp_failure".to_string());
     }
     for (i, ca) in sc.cas.iter().enumerate() {
         let seq: Vec<usize> = sc.steps.iter().map(|s| s.publish.get(i).copied().unwrap_or(0)).collect();
